@@ -202,3 +202,17 @@ func init() {
 		return Val{T: sx("mk_slice", sx("sl_arr", s), x.addIdx(sx("sl_off", s), lo), x.subIdx(hi, lo), x.subIdx(sx("sl_cap", s), lo)), Ty: a[0].Ty}
 	}
 }
+
+func (sc *Scope) tryLvalue(e Expr) (loc string, ty types.Type, ok bool) {
+	defer func() {
+		if r := recover(); r != nil {
+			if _, isEval := r.(evalError); isEval {
+				ok = false
+				return
+			}
+			panic(r)
+		}
+	}()
+	loc, ty = sc.lvalue(e)
+	return loc, ty, true
+}
